@@ -19,12 +19,14 @@ class PathLimit(Exception):
 
 class Explorer:
     def __init__(self, body, max_visits=2, max_paths=200000, follow_unwind=False, stop_at=None,
-                 assume=None):
+                 assume=None, force=None):
         self.b = body
         self.max_visits = max_visits
         self.max_paths = max_paths
         self.stop_at = set(stop_at or ())
         self.assume = assume or {}
+        # force: {switch_bb: fn(visit_index) -> arm value (int) | "otherwise" | None}: scenario-driven decisions
+        self.force = force or {}
         self.untracked = set()
         for bi, si, s in body.stmts(live_only=False):
             if s["k"] == "assign":
@@ -222,6 +224,16 @@ class Explorer:
                 if k == "switch":
                     val = self._op(env, t["discr"])
                     arms = [(int(a[0]), a[1]) for a in t["arms"]]
+                    if bi in self.force:
+                        ch = self.force[bi](v)
+                        if ch is not None:
+                            tgt = t["otherwise"]
+                            if ch != "otherwise":
+                                for av, at in arms:
+                                    if av == ch:
+                                        tgt = at
+                            bi = tgt
+                            continue
                     if val[0] == "k":
                         tgt = t["otherwise"]
                         for av, at in arms:
